@@ -12,6 +12,7 @@ package c14
 import (
 	"fmt"
 	"net/netip"
+	"reflect"
 	"sort"
 	"strings"
 	"testing"
@@ -41,9 +42,17 @@ type scenario struct {
 	name     string
 	aLower   bool // A has the lower address
 	relay    bool
-	maxTun   int // initiations per side
+	maxTun   int // local packets per side (at A, if maxTunB is set)
 	maxFault int
 	maxClock int
+	maxTunB  int // local packets at B; 0 = maxTun
+}
+
+func (sc scenario) tunB() int {
+	if sc.maxTunB > 0 {
+		return sc.maxTunB
+	}
+	return sc.maxTun
 }
 
 type tworld struct {
@@ -300,6 +309,20 @@ func encOf(n *kit.Node, peer netip.Addr) (setup bool, in, out string) {
 	return e.IsSetUp(), kit.Hash(h.InKey()), kit.Hash(h.OutKey())
 }
 
+// seqOf digests the replay-window and outgoing-counter state of n's session for peer.
+func seqOf(n *kit.Node, peer netip.Addr) string {
+	s := n.State().GetSession(peer)
+	if s == nil {
+		return "-"
+	}
+	h := &state.EncryptionSessionTestHelper{EncryptionSession: s.Encryption()}
+	one := func(sh *state.SequenceHandler) string {
+		v := reflect.ValueOf(sh).Elem()
+		return fmt.Sprintf("%x/%d/%d", v.FieldByName("bitMap").Uint(), v.FieldByName("highest").Uint(), v.FieldByName("outSeq").Field(1).Uint())
+	}
+	return one(h.PrioSeq()) + "," + one(h.ReglSeq())
+}
+
 // stateKey is the canonical state: set-up flags, key relation, pending hellos, in-flight multiset, clock bucket.
 func (tw *tworld) stateKey(tuns [2]int, faults, clocks int) (string, bool) {
 	sa, ia, oa := encOf(tw.a, tw.b.Identity().IP)
@@ -316,12 +339,27 @@ func (tw *tworld) stateKey(tuns [2]int, faults, clocks int) (string, bool) {
 	}
 	sort.Strings(fls)
 	pend := fmt.Sprintf("pendA=%v pendB=%v", tw.a.Router().VerifHelloPending(tw.b.Identity().IP), tw.b.Router().VerifHelloPending(tw.a.Identity().IP))
-	return fmt.Sprintf("A=%v B=%v %s %s tuns=%v faults=%d clocks=%d | %s", sa, sb, rel, pend, tuns, faults, clocks, strings.Join(fls, ",")), anySetup
+	seq := "seqA=" + seqOf(tw.a, tw.b.Identity().IP) + " seqB=" + seqOf(tw.b, tw.a.Identity().IP)
+	return fmt.Sprintf("A=%v B=%v %s %s %s tuns=%v faults=%d clocks=%d | %s", sa, sb, rel, pend, seq, tuns, faults, clocks, strings.Join(fls, ",")), anySetup
 }
 
 // probe: mutual decrypt with real frames (destructive, done at the end of a replay).
 func (tw *tworld) probe() (aToB, bToA bool) {
+	// several frames in a row: all of them must unseal (a stale replay window
+	// rejects only some sequence numbers).
 	one := func(src, dst *kit.Node) bool {
+		for i := 0; i < 4; i++ {
+			if !single(src, dst) {
+				return false
+			}
+		}
+		return true
+	}
+	return one(tw.a, tw.b), one(tw.b, tw.a)
+}
+
+func single(src, dst *kit.Node) bool {
+	{
 		ss := src.State().GetSession(dst.Identity().IP)
 		ds := dst.State().GetSession(src.Identity().IP)
 		if ss == nil || ds == nil {
@@ -342,7 +380,6 @@ func (tw *tworld) probe() (aToB, bToA bool) {
 		}
 		return g.Unseal(ds) == nil && string(g.MessageData()) == "probe-payload"
 	}
-	return one(tw.a, tw.b), one(tw.b, tw.a)
 }
 
 func explore(t *testing.T, rep *kit.Report, env kit.Env, sc scenario, maxStates int) {
@@ -432,7 +469,7 @@ func explore(t *testing.T, rep *kit.Report, env kit.Env, sc scenario, maxStates 
 			if nd.tuns[0] < sc.maxTun {
 				add(event{kind: "tunA"}, func(n *node) { n.tuns[0]++ })
 			}
-			if nd.tuns[1] < sc.maxTun {
+			if nd.tuns[1] < sc.tunB() {
 				add(event{kind: "tunB"}, func(n *node) { n.tuns[1]++ })
 			}
 			if nd.clocks < sc.maxClock {
@@ -454,32 +491,35 @@ func explore(t *testing.T, rep *kit.Report, env kit.Env, sc scenario, maxStates 
 		rep.Cap(fmt.Sprintf("%s: state cap %d / time budget reached at BFS level %d", sc.name, maxStates, level))
 	}
 	rep.Add(evals, nontrivial, int64(len(seen)), transitions)
-	rep.Bounds[sc.name] = map[string]any{"initiations_per_side": sc.maxTun, "faults": sc.maxFault, "clock_events": sc.maxClock, "state_cap": maxStates, "bfs_levels": level}
+	rep.Bounds[sc.name] = map[string]any{"local_packets_A": sc.maxTun, "local_packets_B": sc.tunB(), "faults": sc.maxFault, "clock_events": sc.maxClock, "state_cap": maxStates, "bfs_levels": level}
 }
 
 func TestC14(t *testing.T) {
 	env := kit.GetEnv()
 	rep := kit.NewReport("C14", env)
-	rep.Rule = "explicit-state BFS over all event interleavings: events = local packet at A / at B (<= N per side; starts a hello through the real tun handler when the session is not set up, otherwise sends traffic), clock +6 s / +31 s (with the periodic ping-state cleaner), and for every distinct in-flight frame deliver / drop / duplicate (<= F faults); both address orders of the two routers; direct link and one relay; dedup on (set-up flags, key relation, pending hellos, canonical nonce-free in-flight multiset, event budgets); each state = replay of its event path on a fresh world of real routers in virtual time; in every state without a hello / no-keys message in flight: not (both set up and a real sealed frame of either side fails to unseal at the other); non-trivial = states where the oracle applies; states = distinct canonical states"
+	rep.Rule = "explicit-state BFS over all event interleavings: events = local packet at A / at B (<= N per side; starts a hello through the real tun handler when the session is not set up, otherwise sends traffic), clock +6 s / +31 s (with the periodic ping-state cleaner), and for every distinct in-flight frame deliver / drop / duplicate (<= F faults); both address orders of the two routers; direct link and one relay; dedup on (set-up flags, key relation, pending hellos, replay-window and outgoing-counter state of both sessions, canonical nonce-free in-flight multiset, event budgets); each state = replay of its event path on a fresh world of real routers in virtual time; in every state without a hello / no-keys message in flight: not (both set up and one of four consecutive real sealed frames of either side fails to unseal at the other); non-trivial = states where the oracle applies; states = distinct canonical states"
 	rep.Assumptions = []string{
 		"a local packet waits 200 ms (virtual) for the hello to finish, as the real tun handler does; deliveries are atomic handler invocations",
 		"duplicates are byte-level copies, so the signed-frame replay filter is part of the system under test",
 	}
 	scs := []scenario{
-		{"direct/A-lower/1-initiation/1-fault", true, false, 1, 1, 0},
-		{"direct/B-lower/1-initiation/1-fault", false, false, 1, 1, 0},
-		{"direct/A-lower/2-initiations/0-faults/1-clock", true, false, 2, 0, 1},
-		{"direct/B-lower/2-initiations/0-faults/1-clock", false, false, 2, 0, 1},
-		{"relay/A-lower/1-initiation/0-faults", true, true, 1, 0, 0},
+		{"direct/A-lower/1-initiation/1-fault", true, false, 1, 1, 0, 0},
+		{"direct/B-lower/1-initiation/1-fault", false, false, 1, 1, 0, 0},
+		{"direct/A-lower/2-initiations/0-faults/1-clock", true, false, 2, 0, 1, 0},
+		{"direct/B-lower/2-initiations/0-faults/1-clock", false, false, 2, 0, 1, 0},
+		{"relay/A-lower/1-initiation/0-faults", true, true, 1, 0, 0, 0},
+		// setup, traffic, late error, second setup on a used session.
+		{"direct/A-lower/3-packets-at-A,1-at-B/0-faults", true, false, 3, 0, 0, 1},
+		{"direct/B-lower/3-packets-at-A,1-at-B/0-faults", false, false, 3, 0, 0, 1},
 	}
 	cap1 := 6000
 	if env.Thorough() {
 		cap1 = 300000
 		scs = append(scs,
-			scenario{"direct/A-lower/2-initiations/1-fault/1-clock", true, false, 2, 1, 1},
-			scenario{"direct/B-lower/2-initiations/1-fault/1-clock", false, false, 2, 1, 1},
-			scenario{"direct/A-lower/2-initiations/2-faults/2-clocks", true, false, 2, 2, 2},
-			scenario{"relay/B-lower/2-initiations/1-fault/1-clock", false, true, 2, 1, 1},
+			scenario{"direct/A-lower/2-initiations/1-fault/1-clock", true, false, 2, 1, 1, 0},
+			scenario{"direct/B-lower/2-initiations/1-fault/1-clock", false, false, 2, 1, 1, 0},
+			scenario{"direct/A-lower/2-initiations/2-faults/2-clocks", true, false, 2, 2, 2, 0},
+			scenario{"relay/B-lower/2-initiations/1-fault/1-clock", false, true, 2, 1, 1, 0},
 		)
 	}
 	for _, sc := range scs {
